@@ -28,7 +28,7 @@ META = {
         "answers on the original and on the re-lowered program are compared as harness S-expressions rendered with item names",
         "SLG answers that differ only inside the known order-dependence classes F16 / F1 (decided in Coq on the input) are attributed to those findings: the printed program lists items in recording order",
     ],
-    "bins": ["logdb"],
+    "bins": ["logdb", "solve"],
     "quick_s": 70, "thorough_s": 700,
 }
 
